@@ -10,6 +10,7 @@ import (
 
 	"github.com/hashicorp/consul/agent/structs"
 	"github.com/hashicorp/consul/internal/verifrt"
+	"github.com/hashicorp/consul/proto/private/pbpeering"
 )
 
 // C14: the RBAC policy generated for a destination allows a caller identity
@@ -87,10 +88,22 @@ func VerifC14_TCP() {
 		x.UpdatePrecedence()
 		ixns = append(ixns, x)
 	}
+	// optionally one more intention whose source lives in a peer (its callers present the peer's trust domain)
+	var bundles []*pbpeering.PeeringTrustBundle
+	if verifrt.Bool("peered-intention") {
+		x := &structs.Intention{SourceNS: "default", DestinationNS: "default", DestinationName: "db", SourcePeer: "peer1",
+			SourceName: []string{"web", structs.WildcardSpecifier}[verifrt.Choice("peered.src", 2)], Action: structs.IntentionActionAllow}
+		if verifrt.Bool("peered.deny") {
+			x.Action = structs.IntentionActionDeny
+		}
+		x.UpdatePrecedence()
+		ixns = append(ixns, x)
+		bundles = []*pbpeering.PeeringTrustBundle{{PeerName: "peer1", TrustDomain: "peer.consul", ExportedPartition: "default"}}
+	}
 	sort.Sort(structs.IntentionPrecedenceSorter(ixns))
 	defaultAllow := verifrt.Bool("defaultAllow")
 	rbac, err := makeRBACRules(structs.SimplifiedIntentions(ixns), defaultAllow,
-		rbacLocalInfo{trustDomain: "td.consul", datacenter: "dc1", partition: "default"}, false, nil, nil)
+		rbacLocalInfo{trustDomain: "td.consul", datacenter: "dc1", partition: "default"}, false, bundles, nil)
 	verifrt.Assert("C14.tcp.no-error", err == nil)
 
 	// the caller: any service name of 3 or 6 bytes without '/'
@@ -102,7 +115,12 @@ func VerifC14_TCP() {
 	for i := 0; i < len(svc); i++ {
 		verifrt.Assume(svc[i] != '/' && svc[i] < 0x80 && svc[i] >= 0x20)
 	}
+	callerPeer := ""
 	uri := "spiffe://td.consul/ns/default/dc/dc1/svc/" + svc
+	if len(bundles) > 0 && verifrt.Bool("caller.from-peer") {
+		callerPeer = "peer1"
+		uri = "spiffe://peer.consul/ns/default/dc/dc9/svc/" + svc
+	}
 	got := vEvalRBAC(rbac, uri)
 
 	// intention semantics: the most specific matching intention decides (exact
@@ -111,7 +129,7 @@ func VerifC14_TCP() {
 	want := defaultAllow
 	best := -1
 	for _, x := range ixns {
-		if x.SourceName != svc && x.SourceName != structs.WildcardSpecifier {
+		if x.SourcePeer != callerPeer || (x.SourceName != svc && x.SourceName != structs.WildcardSpecifier) {
 			continue
 		}
 		rank := 0
